@@ -787,6 +787,101 @@ theorem step_mstore_partial (env : Env) (s : St) (idx v : W) (rest : List W)
   · right; rw [e]; exact ⟨h, rfl⟩
 
 
+/-- CALLDATACOPY / CODECOPY memory effect (`copy_to_memory` with zero fill): when the destination region is
+    admissible (size ≠ 0, offset + size ≤ u32::MAX), byte i of the region becomes data[dataOff + i], or zero
+    where dataOff + i is beyond the data — for any 256-bit dataOff. -/
+theorem copyToMemory_zero_fill (m : ByteArray) (destOff destSize dataOff : W) (data : Array UInt8)
+    (hs : destSize.toNat ≠ 0) (hb : destOff.toNat + destSize.toNat ≤ u32Max) :
+    ∃ m', copyToMemory m destOff destSize dataOff data true = .ok m' ∧
+      destOff.toNat + destSize.toNat ≤ m'.size ∧
+      ∀ i, i < destSize.toNat → m'[destOff.toNat + i]! = data.getD (dataOff.toNat + i) 0 := by
+  have hreg : memRegion m destOff destSize =
+      .ok (memGrow m (destOff.toNat + destSize.toNat), some (destOff.toNat, destSize.toNat)) := by
+    unfold memRegion
+    have h1 : ¬ destSize.toNat > u32Max := by omega
+    have h3 : ¬ destOff.toNat > u32Max := by omega
+    have h4 : ¬ destOff.toNat + destSize.toNat > u32Max := by omega
+    simp [h1, hs, h3, h4]
+  unfold copyToMemory
+  rw [hreg]
+  simp only []
+  generalize hm1 : memGrow m (destOff.toNat + destSize.toNat) = m1
+  have hm1s : destOff.toNat + destSize.toNat ≤ m1.size := by rw [← hm1]; exact memGrow_size_ge _ _
+  generalize hdo : (if dataOff.toNat < data.size then dataOff.toNat else data.size) = dOff
+  generalize hcs : (if destSize.toNat < data.size - dOff then destSize.toNat else data.size - dOff) = cs
+  have hcs_le : cs ≤ destSize.toNat := by rw [← hcs]; split <;> omega
+  have hcs_le2 : cs ≤ data.size - dOff := by rw [← hcs]; split <;> omega
+  have hsl : (slice data dOff cs).length = cs := by rw [slice_length]; omega
+  generalize hm2 : writeBytes m1 destOff.toNat (slice data dOff cs) = m2
+  have hm2s : m2.size = m1.size := by rw [← hm2, writeBytes_size]
+  have hm2g : ∀ j, m2[j]! = if destOff.toNat ≤ j ∧ j < destOff.toNat + cs then (slice data dOff cs)[j - destOff.toNat]! else m1[j]! := by
+    intro j
+    rw [← hm2, writeBytes_get _ _ _ _ (by rw [hsl]; omega), hsl]
+  by_cases hgt : destSize.toNat > cs
+  · simp only [hgt, and_self, if_true]
+    refine ⟨_, rfl, by rw [writeBytes_size, hm2s]; exact hm1s, ?_⟩
+    intro i hi
+    rw [writeBytes_get _ _ _ _ (by simp; omega)]
+    simp only [List.length_replicate]
+    by_cases hic : i < cs
+    · have h1 : ¬ (destOff.toNat + cs ≤ destOff.toNat + i ∧ destOff.toNat + i < destOff.toNat + cs + (destSize.toNat - cs)) := by omega
+      simp only [h1, if_false]
+      rw [hm2g]
+      have h2 : destOff.toNat ≤ destOff.toNat + i ∧ destOff.toNat + i < destOff.toNat + cs := by omega
+      simp only [h2, and_self, if_true, Nat.add_sub_cancel_left]
+      rw [slice_get _ _ _ _ (by omega)]
+      -- cs > 0 so dOff < data.size, hence dOff = dataOff
+      have : dOff = dataOff.toNat := by
+        rw [← hdo]; split
+        · rfl
+        · rw [← hdo] at hcs_le2; simp_all <;> try omega
+      rw [this]
+    · have h1 : destOff.toNat + cs ≤ destOff.toNat + i ∧ destOff.toNat + i < destOff.toNat + cs + (destSize.toNat - cs) := by omega
+      simp only [h1, and_self, if_true]
+      have hz : (List.replicate (destSize.toNat - cs) (0 : UInt8))[destOff.toNat + i - (destOff.toNat + cs)]! = 0 := by
+        rw [getElem!_pos _ _ (by simp; omega)]; simp
+      rw [hz]
+      -- beyond the data
+      have : ¬ dataOff.toNat + i < data.size := by
+        rw [← hcs] at hic hgt
+        rw [← hdo] at hic hgt
+        split at hic <;> split at hic <;> simp_all <;> try omega
+      simp [this]
+  · have hcs_eq : cs = destSize.toNat := by omega
+    have : ¬ (destSize.toNat > cs) := hgt
+    simp only [this, and_false, if_false]
+    refine ⟨m2, rfl, by rw [hm2s]; exact hm1s, ?_⟩
+    intro i hi
+    rw [hm2g]
+    have h2 : destOff.toNat ≤ destOff.toNat + i ∧ destOff.toNat + i < destOff.toNat + cs := by omega
+    simp only [h2, and_self, if_true, Nat.add_sub_cancel_left]
+    rw [slice_get _ _ _ _ (by omega)]
+    have : dOff = dataOff.toNat := by
+      rw [← hdo]; split
+      · rfl
+      · rw [← hdo] at hcs_le2; simp_all <;> try omega
+    rw [this]
+
+
+/-- CALLDATACOPY step: with `mem :: off :: size :: rest` on the stack, size ≠ 0 and mem + size ≤ u32::MAX, the
+    step succeeds, pops the three words, advances pc, and byte i of the destination region holds
+    calldata[off + i], zero beyond the end of the call data (Yellow Paper). -/
+theorem step_calldatacopy_matches_spec (env : Env) (s : St) (memIdx off size : W) (rest : List W)
+    (hst : s.stack = memIdx :: off :: size :: rest)
+    (hs : size.toNat ≠ 0) (hb : memIdx.toNat + size.toNat ≤ u32Max) :
+    ∃ m', stepOther env s 0x37 = .ok { s with stack := rest, memory := m', pc := s.pc + 1 } ∧
+      ∀ i, i < size.toNat → m'[memIdx.toNat + i]! = env.calldata.getD (off.toNat + i) 0 := by
+  obtain ⟨m', hm, _, hget⟩ := copyToMemory_zero_fill s.memory memIdx size off env.calldata hs hb
+  refine ⟨m', ?_, hget⟩
+  have hstep : stepOther env s 0x37 = (match s.stack with
+    | a :: b :: c :: rest =>
+      match copyToMemory s.memory a c b env.calldata true with
+      | .error e => .error e
+      | .ok m => .ok { s with stack := rest, memory := m, pc := s.pc + 1 }
+    | _ => .error .stackUnderflow) := rfl
+  rw [hstep, hst]
+  simp only [hm]
+
 /-! ### non-vacuity: the definitions evaluate, on the corner cases the property names -/
 
 /- −2^255 ÷ −1 = −2^255; SAR of −16 by 4 = −1; SIGNEXTEND of byte 0x80; ADDMOD without wrap at 2^256;
